@@ -142,6 +142,24 @@ def check_case(case):
                     out.append((f"{name}/native-value-changed", f"{T!r}.convert({v!r}) = {pv!r}"))
             except Exception as e:
                 out.append((f"{name}/native-value-rejected", f"{T!r}.convert({v!r}) raised {e!r}"))
+        elif op == "twins":
+            # values that compare equal but are distinguishable (same amount with another exponent, same instant in
+            # another zone), written one after the other: each must round-trip to itself
+            for tag in case["values"]:
+                v = untag(tag)
+                try:
+                    back = T.convert(wire(spec, T.unconvert(v)))
+                except Exception as e:
+                    out.append((f"{name}/twin-value-refused", f"{T!r}: {v!r}: {e!r}"))
+                    continue
+                ok = same_value(spec, v, back)
+                if ok and name in ("DateTime", "Time"):
+                    txt = T.unconvert(v)
+                    parsed = (R.parse_written_time if name == "Time" else R.parse_written_dt)(txt)
+                    want_off = v.utcoffset() // dt.timedelta(minutes=1)
+                    ok = parsed is not None and parsed[1] == want_off
+                if not ok:
+                    out.append((f"{name}/equal-values-not-written-individually", f"{T!r}: after {case['values'][0]!r}: {v!r} -> {T.unconvert(v)!r} -> {back!r}"))
         elif op == "text":
             t = case["text"]
             expect = case.get("expect", "any")
@@ -251,6 +269,35 @@ def cases(draw):
     required = draw(st.booleans())
     as_list = draw(st.integers(0, 4)) == 0
     c = {"required": required, "list": as_list}
+    if name in ("Decimal", "DateTime", "Time") and draw(st.integers(0, 5)) == 0:
+        c["op"] = "twins"
+        if name == "Decimal":
+            c["type"] = ["Decimal", None]
+            base = draw(dec_text(max_int=6, max_frac=4))
+            d0 = R.decimal_from_text(base)
+            txt = format(d0, "f")
+            extra = draw(st.integers(1, 3))
+            twin = txt + ("0" * extra if "." in txt else "." + "0" * extra)
+            c["values"] = [["dec", txt], ["dec", twin]] if draw(st.booleans()) else [["dec", twin], ["dec", txt]]
+        else:
+            c["type"] = [name]
+            v = draw(aware_time() if name == "Time" else aware_dt())
+            off2 = draw(st.integers(-720, 840).filter(lambda o: o != v[-2 if name == "DateTime" else -1]))
+            if name == "DateTime":
+                a = untag(v)
+                b = a.astimezone(dt.timezone(dt.timedelta(minutes=off2)))
+                if not (1900 <= b.year <= 2200):
+                    off2 = 0 if v[-2] != 0 else 60
+                    b = a.astimezone(dt.timezone(dt.timedelta(minutes=off2)))
+                c["values"] = [v, ["dt", b.year, b.month, b.day, b.hour, b.minute, b.second, b.microsecond, off2, None]]
+            else:
+                h, mi, s_, us, off = v[1:]
+                loc = (((h * 60 + mi) * 60 + s_) * 10**6 + us + (off2 - off) * 60 * 10**6) % R.US_DAY
+                hh, rem = divmod(loc, 3600 * 10**6)
+                mm, rem = divmod(rem, 60 * 10**6)
+                ss, us2 = divmod(rem, 10**6)
+                c["values"] = [v, ["time", hh, mm, ss, us2, off2]]
+        return c
     op = draw(st.sampled_from(["value", "value", "text", "text", "text", "none", "bad-value", "bad-native"]))
     if name == "Bool":
         c["type"] = ["Bool"]
@@ -422,7 +469,7 @@ def cases(draw):
 
 def _nontrivial(c):
     spec = c["type"]
-    if c["op"] in ("bad-value", "bad-native", "nag", "none"):
+    if c["op"] in ("bad-value", "bad-native", "nag", "none", "twins"):
         return True
     if len(spec) > 1 and spec[1] is not None:
         return True
